@@ -91,6 +91,13 @@ impl Check for C10 {
             let at = t_master + ch.choose(S_WORK, (n_intervals * i_units / US) as u64) as u128 * US;
             w.schedule_script(at, 200, k, 0);
         }
+        // on a peer-to-peer port, in a third of the runs, one of the port's own Pdelay_Req is answered
+        // by two responders: the port turns Faulty - and must go on answering its neighbours' requests
+        let make_faulty = p2p && ch.chance(S_WORK, 1, 3);
+        if make_faulty {
+            let at = t_master + ch.choose(S_WORK, (n_intervals * i_units / US) as u64) as u128 * US;
+            w.schedule_script(at, 201, 0, 0);
+        }
         let mut last_seq: BTreeMap<u8, u16> = BTreeMap::new();
         let mut counts: BTreeMap<&'static str, u64> = BTreeMap::new();
         let mut pending_fu: Vec<(u16, u128, u64)> = Vec::new(); // sync seq, tx stamp, emitted seq
@@ -104,6 +111,28 @@ impl Check for C10 {
         loop {
             let st = w.step(ch, end);
             let Some(st) = st else { break };
+            if let Stepped::Script { tag: 201, .. } = st {
+                // (a port that has never been slave has not started its own peer delay requests yet:
+                // let its delay request timer fire once)
+                w.host_call(0, 0, HostCall::Timer(T_DELAY), ch);
+                let seq = w.emitted.iter().rev().find_map(|e| Frame::decode(&e.bytes).ok().filter(|f| f.hdr.msg_type == MsgType::PdelayReq && f.hdr.source == own).map(|f| f.hdr.seq));
+                if let Some(seq) = seq {
+                    for r in 0..2u8 {
+                        let mut f = Frame::new(MsgType::PdelayResp, Pid::new([0xee, r, 0, 0, 0, 0, 0, 1], 1), seq, Body::PdelayResp { request_receipt: Ts { secs: 1_700_000_000, nanos: 5 }, requesting: own });
+                        f.hdr.domain = domain;
+                        f.hdr.sdo_id = sdo;
+                        let rx = w.nodes[0].ports[0].stamp_clock.borrow().stamp_at(w.now());
+                        w.host_call(0, 0, HostCall::RxEvent(std::rc::Rc::new(f.encode()), rx), ch);
+                    }
+                    if w.nodes[0].ports[0].state() == PState::Faulty {
+                        w.out.fault("port_made_faulty_by_two_pdelay_responders");
+                    } else {
+                        w.out.probe(&format!("two_pdelay_responders_but_state_{:?}", w.nodes[0].ports[0].state()));
+                    }
+                } else {
+                    w.out.probe("two_pdelay_responders_planned_but_no_own_request_found");
+                }
+            }
             if let Stepped::Script { tag: 200, .. } = st {
                 // inject a request with arbitrary header
                 let pdelay = if p2p { ch.chance(S_WORK, 2, 3) } else { ch.chance(S_WORK, 1, 6) };
@@ -251,6 +280,15 @@ impl Check for C10 {
         let outstanding = pending_fu.iter().filter(|(_, _, s)| *s + 50 < w.seq()).count();
         if still_master && outstanding > 0 {
             viol.push(("C10.sync_without_follow_up".into(), String::new(), format!("{outstanding} Syncs never got their Follow_Up although the port stayed Master: {:?}", pending_fu.iter().take(3).collect::<Vec<_>>())));
+        }
+        // a Pdelay_Req is answered in the same host call, whatever the state of the port
+        let pdelay_unanswered: Vec<_> = reqs.iter().filter(|r| r.pdelay).map(|r| (r.src.short(), r.seq)).collect();
+        if !pdelay_unanswered.is_empty() {
+            viol.push((
+                "C10.pdelay_req_unanswered".into(),
+                format!("final_state={:?}", w.nodes[0].ports[0].state()),
+                format!("{} Pdelay_Req never got a Pdelay_Resp (first: {:?}); port state at the end {:?}", pdelay_unanswered.len(), pdelay_unanswered.first(), w.nodes[0].ports[0].state()),
+            ));
         }
         let unanswered = reqs.iter().filter(|r| r.pdelay || !p2p).count();
         // Delay_Req is only answered in the master state and Pdelay_Req always: requests sent before
